@@ -97,6 +97,13 @@ var c06Positions = []struct{ name, text string }{
 	{"index-store-value", "arr[0] = %s;\n"},
 	{"property-store-value", "obj.a = %s;\n"},
 	{"callee", "দেখাও (%s)(1);\n"},
+	{"closure-in-array-called-later", "ধরি fs = [];\nফর (ধরি i = 0; i < 3; i = i + 1) {\n  ফাংশন mkf() {\n    দেখাও \"in-closure\";\n    %s;\n    দেখাও \"in-closure-after\";\n  }\n  fs = এড(fs, mkf);\n}\nদেখাও \"made\";\nfs[1]();\nfs[2]();\n"},
+	{"method-in-object", "ধরি holder = {m: f1, n: 0};\nফাংশন meth(self) {\n  self.n = self.n + 1;\n  %s;\n  self.n = self.n + 100;\n}\nholder.m = meth;\nholder.m(holder);\nদেখাও holder.n;\n"},
+	{"recursion-depth-3", "ফাংশন rec(n) {\n  দেখাও n;\n  যদি (n == 3) {\n    %s;\n  }\n  যদি (n < 5) rec(n + 1);\n  দেখাও \"unwinding\";\n}\nrec(0);\n"},
+	{"second-call-of-function", "ফাংশন twice(k) {\n  দেখাও k;\n  যদি (k == 2) {\n    %s;\n  }\n  ফেরত k;\n}\ntwice(1);\ntwice(2);\ntwice(3);\n"},
+	{"argument-of-recursive-call", "ফাংশন sum2(a, b) {\n  যদি (a == 0) ফেরত b;\n  ফেরত sum2(a - 1, b + a);\n}\nদেখাও sum2(3, %s);\n"},
+	{"element-of-nested-literal", "x = {p: [1, {q: %s}], r: pr(\"later-property\", 2)};\n"},
+	{"loop-in-function-in-loop", "ফাংশন inner(n) {\n  ফর (ধরি j = 0; j < 3; j = j + 1) {\n    যদি (n == 1 এবং j == 1) {\n      %s;\n    }\n    দেখাও j;\n  }\n}\nযতক্ষণ (x < 3) {\n  inner(x);\n  x = x + 1;\n}\n"},
 	{"return-in-loop-in-function", "ফাংশন g() {\n  ফর (ধরি i = 0; i < 3; i = i + 1) {\n    যদি (i == 1) ফেরত %s;\n  }\n  ফেরত 0;\n}\nদেখাও g();\n"},
 }
 
